@@ -48,7 +48,9 @@ CHECKS = {
        "future whose item is queued / being assembled / waiting for a slot or whose key is still unanswered in a "
        "running batch whose script ends with fin or raise; C04_every_call_is_served - whoever called is suspended "
        "or has a done event; C04_all_answered_at_rest - when nothing is in flight nobody is pending and every call "
-       "has its done event. The machine is tied to AsyncBackgroundBatcher by a virtual-time differential on random "
+       "has its done event; C04_answer_is_final (Batcher/Stable.lean) - a future that has an answer keeps exactly that "
+       "answer after every longer prefix and after the drain (resolve is only ever applied to unanswered futures). "
+       "The machine is tied to AsyncBackgroundBatcher by a virtual-time differential on random "
        "timed programs; an independent monitor judges every real execution (outcome = first-yield reading, nobody "
        "pending for ever)",
   note=NOTE_COMMON + "Partial: that the outcome recorded for a caller's future is specOutcome of the very batch that "
@@ -84,10 +86,13 @@ CHECKS = {
        "C10_concurrency (running batches <= max_concurrent_batches at every instant; nothing changes the limit), "
        "C10_fifo(_final) (handed-over ++ waiting-for-a-slot ++ being-assembled ++ queued = arrival order, so the "
        "hand-over order is a prefix of the arrival order), from the machine invariant J (Batcher/Invariant.lean: "
-       "preserved by pump, startBatch, releaseSlots, dispatch, assemble, fire, advance, arrive, applyIn). Tied to "
+       "preserved by pump, startBatch, releaseSlots, dispatch, assemble, fire, advance, arrive, applyIn); C10_on_time "
+       "(Batcher/OnTime.lean: at every input instant at which the machine did not run out of fuel no queued call is "
+       "left over, no open assembly is past its deadline, no running batch behind its script, no timer overdue). Tied to "
        "AsyncBackgroundBatcher by a virtual-time differential that compares every batch's start time, identity and "
        "contents, including max_batch_size mutated while running; monitor: 1 <= size <= limit in force, running <= "
-       "max_concurrent_batches, FIFO, not early / not late, sharing",
+       "max_concurrent_batches, FIFO, not early / not late, sharing; inputs that coincide with an internal event are not "
+       "compared with the machine but judged by the order-free monitors, and a 'race' family aims at such instants",
   note=NOTE_COMMON + "Partial: the timing clauses (calls < batch_timeout apart share a batch until it is full; "
        "hand-over no later than batch_timeout after the last arrival) are decided by the differential on batch start "
        "times and the monitor, not by a theorem. asyncio.Semaphore FIFO fairness assumed (3.12).",
@@ -114,13 +119,14 @@ CHECKS = {
        "gets the old result), C11_remembered_throughout_window (a remembered answered future, answered at c, is still "
        "remembered at every input instant t <= c + retention_timeout whatever else happened in between), advance_quiet "
        "(advance leaves nothing due unless its fuel ran out; the driver reports programDone and the harness treats a "
-       "false as a broken tie). The retention machine is tied to the real code by a "
+       "false as a broken tie); C04_answer_is_final (Batcher/Stable.lean: resolve is only ever applied to unanswered "
+       "futures, so an answered future keeps its answer along every machine function) and "
+       "C11_sharer_receives_the_original_outcome (a call for a remembered answered key at any t <= c + "
+       "retention_timeout is answered at once with exactly that answer and adds no work). The retention machine is tied to the real code by a "
        "virtual-time differential over 1..3 keys with gaps around retention_timeout and completion times, and by "
        "chained re-requests issued in the very step of the answer; monitor: no batch carries a key twice, sharers get "
        "the original's outcome, a call after the window is computed afresh, nothing is remembered with retention 0",
-  note=NOTE_COMMON + "Partial: the window theorems speak about the retention table at input instants; that the outcome "
-       "a sharer reads off a remembered future is the original's is C04's run-level theorem (a future is answered "
-       "once); re-requests in the step of the answer and calls at exactly completion + retention_timeout are ties for "
+  note=NOTE_COMMON + "Partial: re-requests in the step of the answer and calls at exactly completion + retention_timeout are ties for "
        "the timed model and are judged by the monitor only (the implementation decides the latter with >=: new work). "
        "A loop that is not running while the clock advances (F28) is outside the machine: scripted scenarios. "
        "call_later exactness assumed.",
@@ -263,7 +269,11 @@ CHECKS = {
        "(received = a prefix of the elements before the failure point, in order, each once), C16_complete (at the end "
        "exactly those elements, raising iff the source failed), C16_sentinel_always (the sentinel is sent also on "
        "failure, so the consumer cannot wait for ever), C16_no_thread_left (the consumer finishes only after the "
-       "worker exited), C16_never_stuck (some step is always enabled), from an 8-clause invariant (inv_step). Tie: "
+       "worker exited), C16_never_stuck (some step is always enabled), from an 8-clause invariant (inv_step). A consumer "
+       "that gives up early (Bridge/CloseModel.lean + Close.lean: the LTS extended by the stop flag, close, drop and the "
+       "one put whose test preceded the close): C16_close_prefix (whatever was received is a prefix of what was owed), "
+       "C16_at_most_one_put_after_close, C16_close_never_blocks, C16_helper_never_stuck + C16_helper_progress (the "
+       "helper thread always has a step and each decreases a measure: no thread is left behind). Tie: "
        "to_async_iter and to_sync_iter run as real threads under the baton scheduler with a cooperative executor / "
        "queue / future (schedule points at source steps, channel puts, gets, joins); each execution's label trace "
        "must be accepted by the model; monitor: sequence incl. falsy elements and duplicates, identity of the "
